@@ -16,6 +16,16 @@ CHECKS = {
              "raise; inputs are compared with clones. Bounded search; the enumerated scope is complete.",
         note="Trusts the harness-side encoder/decoder (pbt/gen.py) and Python string slicing as the reference. Motifs use alphabet "
              "characters only; spacings non-negative; X and motif share a dtype."),
+    "C02": dict(
+        technique="property-based testing (Hypothesis) with Counter-based composition oracles + exhaustive enumeration of sequences and of every internal permutation outcome of the Euler walk",
+        category="exploration", design_ref="DESIGN.md §3 C02",
+        text="shuffle/dinucleotide_shuffle outputs are checked for region character / ordered-pair Counters, identical flanks, one 1 per "
+             "column, unchanged input and same-seed determinism on generated batches and on every sequence up to length 7/8; the walk "
+             "itself is run through _fast_shuffle.py_func with its random source replaced by an enumerator so that every combination "
+             "of permutations it can draw is executed for every short sequence (complete), and a seeded sample for longer ones.",
+        note="walk_outcomes assumes the walk draws randomness only via numpy.random.permutation; if that changes the sub-check labels "
+             "itself unavailable (no verdict) and the seed-sampled sub-checks remain. Exceptions from dinucleotide_shuffle are permitted "
+             "rejections per the statement and are counted."),
     "C15": dict(
         technique="property-based testing (Hypothesis) with a string round-trip / direct-slicing oracle + exhaustive small-scope enumeration",
         category="exploration", design_ref="DESIGN.md §3 C15",
